@@ -60,8 +60,10 @@ class Subframe:
             raise sc.DimensionError(
                 f'Inconsistent dims or shape: {time.sizes} vs {wavelength.sizes}'
             )
-        self.time = time.to(unit='s', copy=False)
-        self.wavelength = wavelength.to(unit='angstrom', copy=False)
+        # float64 because integer inputs would be rounded by the unit conversion
+        # and cannot hold the interpolated vertices created by chopping.
+        self.time = time.to(unit='s', dtype='float64', copy=False)
+        self.wavelength = wavelength.to(unit='angstrom', dtype='float64', copy=False)
 
     def __eq__(self, other: object) -> bool:
         if not isinstance(other, Subframe):
@@ -313,12 +315,12 @@ class FrameSequence:
         The distance is set to 0 m.
         """
         time = sc.concat([time_min, time_max, time_max, time_min], dim='vertex').to(
-            unit='s'
+            unit='s', dtype='float64'
         )
         wavelength = sc.concat(
             [wavelength_min, wavelength_min, wavelength_max, wavelength_max],
             dim='vertex',
-        ).to(unit='angstrom')
+        ).to(unit='angstrom', dtype='float64')
         frames = [
             Frame(
                 distance=sc.scalar(0, unit='m'),
